@@ -57,3 +57,14 @@ def _shift(L):
         L.assume(f"{x}.reference_offset is None or {x}.main_target is None or ({x}.secondary_target is None and {x}.main_target - ({x}.last_acquisition_index + 1) - {x}.reference_offset < 0) or ({x}.secondary_target is not None and -{x}.reference_offset < 0)")
         L.assume(f"{x}.secondary_offset is None or {x}.reference_offset is None or {x}.secondary_target is None or {x}.main_target is None or -{x}.reference_offset - {x}.secondary_offset < 0")
     L.prove("same_targets", "same_seq(stim_targets(a.to_stim_instruction()), stim_targets(b.to_stim_instruction()))")
+
+# ---------------------------------------------------------------- gate factories: the named instruction on the operation's qubits
+fields("addon_stim/NameBasedOperationsFactory", _operation_name=STR)
+contract("addon_stim/NameBasedOperationsFactory.construct", params=dict(self=REF("addon_stim/NameBasedOperationsFactory"), operation=REF("ICircuitOperation")),
+         returns=REF("StimInstruction"), pure=True, props=P,
+         ensures=["stim_name(result) == self._operation_name",
+                  # targets: the ids of the operation's channels, each once (get_qubit_index, verified under C15 / C19)
+                  "same_seq(stim_targets(result), get_qubit_index(operation))"])
+contract("TickOperationsFactory.construct", params=dict(self=REF("TickOperationsFactory"), operation=REF("ICircuitOperation")),
+         returns=REF("StimInstruction"), pure=True, props=P,
+         ensures=["stim_name(result) == 'TICK'", "len(stim_targets(result)) == 0"])
